@@ -60,6 +60,9 @@ type Index struct {
 type FakeConn struct {
 	Lenient  bool
 	RowFound bool // lenient mode: answer of QueryRow
+	KeepCopy bool // keep the column list and rows of the last CopyFrom (LastCols, LastRows)
+	LastCols []string
+	LastRows [][]any
 	Log      []Stmt
 	Tables   map[string]*Table
 	Indexes  map[string]*Index
@@ -493,6 +496,38 @@ func toU64(v any) (uint64, bool) {
 	return 0, false
 }
 
+func (t *Table) colType(n string) string {
+	for _, c := range t.Cols {
+		if c.Name == n {
+			return c.Type
+		}
+	}
+	return ""
+}
+
+// IntOf reads a Go integer cell.
+func IntOf(v any) (int64, bool) {
+	switch x := v.(type) {
+	case int:
+		return int64(x), true
+	case int8:
+		return int64(x), true
+	case int16:
+		return int64(x), true
+	case int32:
+		return int64(x), true
+	case int64:
+		return x, true
+	case uint64:
+		return int64(x), x < 1<<63
+	case eth.Uint64:
+		return int64(x), x < 1<<63
+	case eth.Byte:
+		return int64(x), true
+	}
+	return 0, false
+}
+
 func (t *Table) hasCol(n string) bool {
 	for _, c := range t.Cols {
 		if c.Name == n {
@@ -528,6 +563,10 @@ func Canon(v any) string {
 	case int:
 		return fmt.Sprintf("n:%d", x)
 	case int64:
+		return fmt.Sprintf("n:%d", x)
+	case int16:
+		return fmt.Sprintf("n:%d", x)
+	case int32:
 		return fmt.Sprintf("n:%d", x)
 	case bool:
 		return fmt.Sprintf("t:%v", x)
@@ -753,6 +792,9 @@ func (f *FakeConn) CopyFrom(ctx context.Context, ident pgx.Identifier, cols []st
 		rows = append(rows, v)
 	}
 	cp.Args = []any{len(rows)}
+	if f.KeepCopy {
+		f.LastCols, f.LastRows = append([]string{}, cols...), rows
+	}
 	fail := func(err error) (int64, error) {
 		cp.Err = err.Error()
 		f.Log = append(f.Log, desc, cp)
@@ -780,6 +822,25 @@ func (f *FakeConn) CopyFrom(ctx context.Context, ident pgx.Identifier, cols []st
 			return fail(pgErr("42701", fmt.Sprintf("column %q specified more than once", c)))
 		}
 		seen[c] = true
+	}
+	// integer columns have a range (Postgres: 22003 "smallint out of range")
+	for i, c := range cols {
+		var lo, hi int64
+		switch t.colType(c) {
+		case "int2", "smallint":
+			lo, hi = -32768, 32767
+		case "int", "int4", "integer":
+			lo, hi = -2147483648, 2147483647
+		default:
+			continue
+		}
+		for _, r := range rows {
+			if i < len(r) {
+				if v, ok := IntOf(r[i]); ok && (v < lo || v > hi) {
+					return fail(pgErr("22003", fmt.Sprintf("value %d out of range for column %q of type %s", v, c, t.colType(c))))
+				}
+			}
+		}
 	}
 	var add []map[string]any
 	for _, r := range rows {
